@@ -381,7 +381,56 @@ def _root_local(f, op):
     return l
 
 
+def rule_partial_walk(ck):
+    """what the walk does when the next frame cannot be established, and what it needs to cross a signal frame"""
+    prog = ck.prog
+    ck.rule("mpt.partial_walk", "DwarfUnwinder::unwind never discards the frames it has found: inside the loop the only error exits are the construction of the FrameSpan of a frame that was established; a return address outside every known object and a failing UnwindContext::next end the walk (break), they do not fail the backtrace")
+    f = ck.anchor(f"{UNW}::unwind")
+    hdrs = [c for c in f.calls() if c.name == f"{UCX}::return_address" and c.bb in f.after(c.bb)]
+    if ck.ob("mpt.partial_walk", "unwind/has-loop", len(hdrs) == 1, "", f.loc()):
+        h = hdrs[0].bb
+        loop = {b for b in f.after(h) if h in f.after(b)} | {h}
+        srcs = []
+        for c in f.calls():
+            if c.path.endswith("FromResidual::from_residual") and c.bb in f.after(h) and any(p_ in loop for p_ in f.preds(c.bb)) if hasattr(f, "preds") else False:
+                pass
+        # error exits reachable from inside the loop: classify by the fallible call they propagate
+        for c in f.calls():
+            if not c.path.endswith("FromResidual::from_residual"):
+                continue
+            e = expr_of(f, c.args[0], depth=8)
+            while isinstance(e, tuple) and e[0] in ("field", "try", "ref"):
+                e = e[1]
+            if isinstance(e, tuple) and e[0] == "call" and e[1].endswith("::branch") and e[2]:
+                e = e[2][0]
+                while isinstance(e, tuple) and e[0] in ("field", "try", "ref"):
+                    e = e[1]
+            nm = e[1].rsplit("::", 1)[-1] if isinstance(e, tuple) and e[0] == "call" else expr_str(e, 3)
+            src_call = e[3] if isinstance(e, tuple) and e[0] == "call" and len(e) > 3 else None
+            in_loop = src_call is not None and src_call.bb in loop
+            if in_loop:
+                srcs.append(nm)
+        bad = sorted(x for x in srcs if x not in ("new",))   # FrameSpan::new
+        ck.ob("mpt.partial_walk", "unwind/loop-fails-only-on-an-established-frame", not bad, f"`?` inside the loop on: {sorted(srcs)}", f.loc(h), what="one frame that cannot be resolved (a signal trampoline, a corrupted return address) makes the whole backtrace fail: not even the innermost frames are shown")
+    # crossing a signal frame: glibc's __restore_rt describes every register with DW_CFA_expression; libc ships unwind
+    # tables but no .debug_info, so an evaluator that is built from the DWARF unit covering the pc cannot be built there
+    ck.rule("mpt.signal_frames", "CFI expression rules (RegisterRule::Expression / ValExpression, CfaRule::Expression) are evaluated without requiring a DWARF unit that covers the pc: the signal trampoline of libc has unwind information but no unit, and the frames behind a signal handler are reachable only through its expression rules")
+    need_unit = []
+    for p_ in [f"{UCX}::new"] + list(prog.closures_of(f"{UCX}::new")) + ["debugger::debugee::dwarf::DebugInformation::evaluate_cfa"]:
+        g = prog.fns.get(p_)
+        if g is None:
+            continue
+        ck.saw(g)
+        names = [c.name for c in g.calls()]
+        if any(n.endswith("DebugInformation::find_unit_by_pc") for n in names) and any(n.endswith("BsUnit::evaluator") for n in names):
+            need_unit.append(short(owner_fn(p_)) + ("/closure" if "closure" in p_ else ""))
+    for k in sorted(set(need_unit)):
+        ck.ob("mpt.signal_frames", f"{k}/cfi-expression-evaluated-without-a-dwarf-unit", False, "the evaluator is obtained from find_unit_by_pc(pc)", "src/debugger/debugee/dwarf/unwind.rs" if "UnwindContext" in k else "src/debugger/debugee/dwarf/mod.rs", what="frames behind a signal handler are not listed: the trampoline's register rules are expressions and no unit covers libc")
+    ck.ob("mpt.signal_frames", "expression-rule-sites-found", True, f"{sorted(set(need_unit))}", "")
+
+
 def run(ck):
+    rule_partial_walk(ck)
     rule_frame_steps(ck)
     regs.rule_numbering(ck)
     rule_wiring(ck)
